@@ -117,7 +117,7 @@ func envOr(k, d string) string {
 func cmdCheck(args []string) int {
 	fs := flag.NewFlagSet("check", flag.ExitOnError)
 	tierS := fs.String("tier", envOr("VERIF_TIER", "quick"), "quick|thorough")
-	repo := fs.String("repo", "/repo", "repository")
+	repo := fs.String("repo", envOr("VERIF_REPO", "/repo"), "repository")
 	only := fs.String("only", "", "run only this harness (debugging; evidence not written)")
 	workers := fs.Int("workers", 0, "workers")
 	noNative := fs.Bool("no-native", false, "skip native replays (debugging)")
@@ -157,7 +157,13 @@ func cmdCheck(args []string) int {
 		}
 	}
 
+	// VERIF_SCRATCH=<tag>: a run against a scratch copy of the repository (seeded
+	// changes): own work directory, replays kept there, no evidence written.
+	scratch := os.Getenv("VERIF_SCRATCH")
 	work := filepath.Join(verifDir, ".work", id+"-"+*tierS)
+	if scratch != "" {
+		work += "-" + scratch
+	}
 	os.RemoveAll(work)
 	ovDir := filepath.Join(work, "overlay")
 	pkgDirs := map[string]bool{}
@@ -247,6 +253,9 @@ func cmdCheck(args []string) int {
 
 	// ---- native replays: violations and sample vectors ----
 	replayDir := filepath.Join(verifDir, "replays", id)
+	if scratch != "" {
+		replayDir = filepath.Join(verifDir, ".work", "replays-"+scratch)
+	}
 	os.MkdirAll(replayDir, 0o755)
 	type pending struct {
 		v      *Violation
@@ -486,7 +495,7 @@ func cmdCheck(args []string) int {
 	ev["assumptions"] = cfg.Assumptions
 	ev["wall_s"] = time.Since(t0).Seconds()
 	ev["violations"] = violLines
-	if *only == "" {
+	if *only == "" && scratch == "" {
 		os.MkdirAll(filepath.Join(verifDir, "evidence"), 0o755)
 		b, _ := json.MarshalIndent(ev, "", " ")
 		os.WriteFile(filepath.Join(verifDir, "evidence", id+".json"), b, 0o644)
